@@ -1097,6 +1097,10 @@ class FuncGraph:
         if isinstance(v, ast.Constant):
             return                          # docstring / bare literal
         if isinstance(v, ast.Call) and self.is_logging(v, st):
+            # debug / info output is not behaviour; a warning or an error record is (C03: "zero corrections with a
+            # warning" vs "silently"), up to its wording -- like the message of an exception
+            if v.func.attr not in ("debug", "info"):
+                self.effect(st, "log", v.func.attr)
             return
         x = self.expr(v, st)
         if not isinstance(v, (ast.Call, ast.Yield, ast.YieldFrom)):
